@@ -25,6 +25,9 @@ pub enum Body {
     /// Copy only: `echo "$(simcat 64)"` — the stage's input is read by a command substitution
     /// in the words of a simple command
     SubstCat,
+    /// Copy only: `simcat B < <(simcat B)` — the stage's input read by a process substitution
+    /// written inside the stage
+    ProcCat,
     /// Emit only, joined to the next stage with `|&`: every line is followed by a line on
     /// standard error
     LoopBoth,
@@ -88,7 +91,14 @@ pub struct Stage {
 #[derive(Clone, Debug, Serialize, Deserialize, PartialEq)]
 pub enum Wrap {
     None,
-    CmdSubst { trailing_newlines: u32 },
+    CmdSubst {
+        trailing_newlines: u32,
+        /// blanks the output ends with before its trailing newlines: 0 none, 1 " ", 2 tab, 3 CR, 4 " \t "
+        #[serde(default)]
+        tail: u8,
+    },
+    /// `x=$(PIPELINE > >(simcat 64))`: a process substitution inside a command substitution
+    CmdSubstProcOut,
     Backquote,
     InFunction,
     Bang,
@@ -166,6 +176,8 @@ fn render_inner(st: &Stage, idx: usize) -> String {
         }
         (Role::Copy { buf }, Body::Printf | Body::EchoVar | Body::LoopBoth) => format!("simcat {buf}"),
         (Role::Copy { buf }, Body::SubstCat) => format!("echo \"$(simcat {buf})\""),
+        (Role::Copy { buf }, Body::ProcCat) => format!("simcat {buf} < <(simcat {buf})"),
+        (Role::Emit { n, tag, pad }, Body::ProcCat) => format!("simseq {n} {tag} {pad}"),
         (Role::Emit { n, tag, pad }, Body::SubstCat) => format!("simseq {n} {tag} {pad}"),
         (Role::Emit { n, tag, pad }, Body::Loop) => {
             let padstr = "x".repeat(*pad as usize);
@@ -175,7 +187,7 @@ fn render_inner(st: &Stage, idx: usize) -> String {
         (Role::Copy { buf }, Body::Builtin) => format!("simcat {buf}"),
         (Role::Copy { .. }, Body::Loop) => format!("while IFS= read -r {v}; do echo \"${v}\"; done"),
         (Role::Tag { prefix }, _) => format!("while IFS= read -r {v}; do echo \"{prefix}${v}\"; done"),
-        (Role::Head { k, buf }, Body::Builtin | Body::Printf | Body::EchoVar | Body::Mapfile | Body::LoopBoth | Body::SubstCat) => format!("simhead {k} {buf}"),
+        (Role::Head { k, buf }, Body::Builtin | Body::Printf | Body::EchoVar | Body::Mapfile | Body::LoopBoth | Body::SubstCat | Body::ProcCat) => format!("simhead {k} {buf}"),
         (Role::Head { k, .. }, Body::Loop) => format!(
             "n{idx}=0; while IFS= read -r {v}; do echo \"${v}\"; n{idx}=$((n{idx}+1)); if [ $n{idx} -ge {k} ]; then break; fi; done"
         ),
@@ -218,9 +230,9 @@ fn is_compound_text(st: &Stage) -> bool {
     !matches!(
         (&st.role, &st.body),
         (Role::Emit { .. }, Body::Builtin | Body::External | Body::Printf)
-            | (Role::Copy { .. }, Body::Builtin | Body::External | Body::Printf | Body::EchoVar | Body::LoopBoth | Body::SubstCat)
-            | (Role::Head { .. }, Body::Builtin | Body::External | Body::Printf | Body::EchoVar | Body::Mapfile | Body::LoopBoth | Body::SubstCat)
-            | (Role::Emit { .. }, Body::Mapfile | Body::SubstCat)
+            | (Role::Copy { .. }, Body::Builtin | Body::External | Body::Printf | Body::EchoVar | Body::LoopBoth | Body::SubstCat | Body::ProcCat)
+            | (Role::Head { .. }, Body::Builtin | Body::External | Body::Printf | Body::EchoVar | Body::Mapfile | Body::LoopBoth | Body::SubstCat | Body::ProcCat)
+            | (Role::Emit { .. }, Body::Mapfile | Body::SubstCat | Body::ProcCat)
             | (Role::Exit { .. }, _)
     )
 }
@@ -228,6 +240,17 @@ fn is_compound_text(st: &Stage) -> bool {
 /// Does this stage run inline on the spawning task (compound command or function call)?
 pub fn runs_inline(st: &Stage) -> bool {
     st.wrapper != Wrapper::None || is_compound_text(st)
+}
+
+/// (printf format text, bytes) of a `tail` code
+fn tail_text(tail: u8) -> (&'static str, &'static [u8]) {
+    match tail {
+        1 => (" ", b" "),
+        2 => ("\\t", b"\t"),
+        3 => ("\\r", b"\r"),
+        4 => (" \\t ", b" \t "),
+        _ => ("", b""),
+    }
 }
 
 fn both_joined(st: &Stage) -> bool {
@@ -292,10 +315,16 @@ pub fn render(case: &Case) -> String {
         Wrap::InFunction => {
             s.push_str(&format!("wrapf() {{ {pipeline}; }}\nwrapf\nprobe fn\n"));
         }
-        Wrap::CmdSubst { trailing_newlines } => {
+        Wrap::CmdSubstProcOut => {
+            s.push_str(&format!("x=$({pipeline} > >(simcat 64))\nprobe cs\nprintf '%s|' \"$x\"\n"));
+        }
+        Wrap::CmdSubst { trailing_newlines, tail } => {
             let mut inner = pipeline.clone();
-            if *trailing_newlines > 0 {
+            if *trailing_newlines > 0 || *tail > 0 {
                 inner.push_str("; s=$?");
+                if *tail > 0 {
+                    inner.push_str(&format!("; printf 'T{}'", tail_text(*tail).0));
+                }
                 for _ in 0..*trailing_newlines {
                     inner.push_str("; echo");
                 }
@@ -694,6 +723,7 @@ impl C11 {
                 match rng.below(8) {
                     0 => Body::Mapfile,
                     1 => Body::SubstCat,
+                    2 => Body::ProcCat,
                     _ => body,
                 }
             } else {
@@ -709,7 +739,7 @@ impl C11 {
         }
         let wrap = match class.as_str() {
             "real-size" => match rng.below(4) {
-                0 => Wrap::CmdSubst { trailing_newlines: rng.below(3) as u32 },
+                0 => Wrap::CmdSubst { trailing_newlines: rng.below(3) as u32, tail: 0 },
                 1 => Wrap::NestedCmdSubst,
                 _ => Wrap::None,
             },
@@ -717,7 +747,7 @@ impl C11 {
                 if rng.below(5) == 0 {
                     Wrap::Backquote
                 } else {
-                    Wrap::CmdSubst { trailing_newlines: rng.below(4) as u32 }
+                    Wrap::CmdSubst { trailing_newlines: rng.below(4) as u32, tail: if rng.below(3) == 0 { rng.range(1, 4) as u8 } else { 0 } }
                 }
             }
             _ => match rng.below(12) {
@@ -728,6 +758,7 @@ impl C11 {
                 4 => Wrap::ProcSubstOut,
                 5 => Wrap::Background,
                 7 => Wrap::BgProcSubstIn { read_loop: rng.below(2) == 0 },
+                8 => Wrap::CmdSubstProcOut,
                 6 => Wrap::AndOr { and: rng.below(2) == 0 },
                 _ => Wrap::None,
             },
@@ -756,7 +787,7 @@ impl C11 {
             cfg.short_read_pm = 0;
         }
         // (side finding, not C11: brush cannot parse a `case` inside <( ) / >( ))
-        if matches!(wrap, Wrap::ProcSubstIn | Wrap::ProcSubstOut | Wrap::BgProcSubstIn { .. }) {
+        if matches!(wrap, Wrap::ProcSubstIn | Wrap::ProcSubstOut | Wrap::BgProcSubstIn { .. } | Wrap::CmdSubstProcOut) {
             for st in &mut stages {
                 if st.wrapper == Wrapper::CaseArm {
                     st.wrapper = Wrapper::Brace;
@@ -851,8 +882,14 @@ pub fn judge(case: &Case) -> Verdict {
 
     // 2. integrity of the data reaching the final sink
     let expected_out: Vec<u8> = match &case.wrap {
-        Wrap::CmdSubst { .. } | Wrap::Backquote | Wrap::NestedCmdSubst => {
+        Wrap::CmdSubst { .. } | Wrap::Backquote | Wrap::NestedCmdSubst | Wrap::CmdSubstProcOut => {
             let mut o = m.output.clone();
+            if let Wrap::CmdSubst { tail, .. } = &case.wrap {
+                if *tail > 0 {
+                    o.push(b'T');
+                    o.extend_from_slice(tail_text(*tail).1);
+                }
+            }
             while o.last() == Some(&b'\n') {
                 o.pop();
             }
